@@ -106,6 +106,38 @@ CHECKS["C10"] = {
     "bounds": {"quick": "pool 0..3 (first 0..4)", "thorough": "pool 0..4..6"},
 }
 
+def _c02():
+    hs = []
+    for a in range(3):
+        for b in range(3):
+            hs.append(H("c02.VH_routes", {"R": 2, "KIND0": a, "KIND1": b, "L": 3, "ROUNDS": 3}, {"R": 2, "KIND0": a, "KIND1": b, "L": 4, "ROUNDS": 4},
+                        variant=f"r2k{a}{b}", weight=2 + a + b, covers=["fallback ran"]))
+    hs.append(H("c02.VH_routes", {"R": 1, "SETS": 2, "L": 3, "ROUNDS": 3}, {"R": 1, "SETS": 2, "L": 4, "ROUNDS": 4}, variant="r1or", weight=3,
+                covers=["fallback ran", "terminal route ran", "non-terminal route ran", "matching aborted at end of stream"]))
+    quick3 = [(2, 0, 0), (2, 1, 0), (1, 2, 0), (2, 2, 0)]
+    for a in range(3):
+        for b in range(3):
+            for c in range(3):
+                tiers = ("quick", "thorough") if (a, b, c) in quick3 else ("thorough",)
+                hs.append(H("c02.VH_routes", {"R": 3, "KIND0": a, "KIND1": b, "KIND2": c, "AND": 0, "L": 3, "ROUNDS": 3},
+                            {"R": 3, "KIND0": a, "KIND1": b, "KIND2": c, "AND": 0, "L": 4, "ROUNDS": 3}, variant=f"r3k{a}{b}{c}", weight=4, tiers=tiers))
+    for ik in range(3):
+        tiers = ("quick", "thorough") if ik in (0, 1) else ("thorough",)
+        hs.append(H("c02.VH_subroute", {"R": 2, "KIND0": 3, "KIND1": 0, "IKIND0": ik, "AND": 0, "L": 3, "ROUNDS": 3, "CONNS": 2},
+                    {"R": 2, "KIND0": 3, "KIND1": 0, "IKIND0": ik, "AND": 1, "L": 3, "ROUNDS": 3, "CONNS": 2}, variant=f"sub{ik}", weight=5,
+                    tiers=tiers, covers=["subroute entered", "subroute fell through"] if ik else ["subroute entered"]))
+    return hs
+
+
+CHECKS["C02"] = {
+    "harnesses": _c02(),
+    "level_text": "bounded model checking of the real RouteList.Compile closure, MatcherSet.Match, MatcherSets.AnyMatch and the subroute handler: route lists of 1-3 routes (and/or structure, terminal / pass-through / consuming handlers, one nested subroute, two successive connections through the same handlers), streams up to 3-4 bytes with every segmentation, content-dependent matchers with symbolic needs; an order-independent oracle asserts on every handler and fallback invocation exactly what the property states",
+    "level_note": "matchers are harness matchers At{N,K} (need N bytes, match iff the N-th byte equals K; N, K symbolic) - the shipped protocol matchers are covered by C04/C06/C14; streams, needs and rounds are small (pigeonhole-sized for 2-3 routes); the client ends its stream with EOF; 'random larger instances' of the property's quantifier are outside this technique; `not` is checked in C14",
+    "assumptions": ["client connection = SymConn: every Read returns an arbitrary non-empty segment of the remaining stream, then io.EOF", "zap logging is a no-op stub"],
+    "outside": ["route lists longer than 3, streams longer than 4 bytes, more than 4 arrival rounds", "matching timeout behaviour (C05)", "listener-wrapper fallback (C13)"],
+    "bounds": {"quick": "R<=3 (subset of handler-kind combinations for R=3), L<=3, <=3 rounds, N<=2", "thorough": "R<=3 all 27 combinations, L<=4, <=4 rounds"},
+}
+
 NOT_APPLICABLE = {
     "C15": "Caddyfile->JSON adaptation and JSON round-trip run through the Caddyfile lexer, encoding/json reflection and Caddy's module loader over an unbounded configuration grammar; this cannot be encoded by a hand-written go/ssa symbolic executor (reflection refused, inputs are programs of a grammar, not bounded bytes/integers)",
 }
